@@ -533,6 +533,11 @@ func (r *run) judgeFinal(result error) {
 		r.violate("C05", "false-cycle", "acyclic graph but a cyclic-dependency error was reported")
 	}
 	if r.rn != nil {
+		for k, v := range r.rn.Targets() {
+			if v.Published {
+				r.violate("C05", "left-published", "target "+k+" has finished but its waiting set is still published (a later cycle walk reads it)")
+			}
+		}
 		if c := r.rn.Capacity(); c != r.limit {
 			r.violate("C09", "slots-not-conserved", fmt.Sprintf("capacity %d after the build, limit %d", c, r.limit))
 		}
@@ -554,8 +559,14 @@ func controlled(g *graph, pick func(*sched, []*thread) *thread, watchdog time.Du
 	// every execution falls back to uniformly random choices, which are fair with probability one.
 	steps, fairAfter := 0, 300+150*g.n
 	fair := &rng{uint64(g.n)*7919 + 17}
+	hardMax := 4000 + 2000*g.n
+	diverged := false
 	s.pick = func(sc *sched, ready []*thread) *thread {
 		steps++
+		if steps > hardMax {
+			diverged = true // even fair scheduling does not end this execution
+			return nil
+		}
 		if steps > fairAfter {
 			return ready[fair.below(len(ready))]
 		}
@@ -604,7 +615,10 @@ func controlled(g *graph, pick func(*sched, []*thread) *thread, watchdog time.Du
 		}
 		r.violate("C04", kind, p)
 	}
-	if v.kind == "pruned" {
+	if v.kind == "pruned" && diverged {
+		// do not release the goroutines: a walk that never ends would overflow the stack of this process
+		v = verdict{"diverged", fmt.Sprintf("no end after %d scheduling steps (fair random choices since step %d): %s", hardMax, fairAfter, func() string { s.mu.Lock(); defer s.mu.Unlock(); return s.describe() }())}
+	} else if v.kind == "pruned" {
 		s.release()
 	}
 	if v.kind == "done" {
@@ -867,6 +881,10 @@ func reportExecution(w *bufio.Writer, r *run, j job, o outcome) (fatal bool) {
 		}
 		fmt.Fprintf(w, "C\t%s\ttrace %s %s\tdeadlock\n", j.Stream, j.Params, o.events)
 		fatal = true
+	case "diverged":
+		r.violate("C05", "does-not-terminate", o.verdict.detail)
+		fmt.Fprintf(w, "C\t%s\ttrace %s %s\tdiverged\n", j.Stream, j.Params, "-")
+		fatal = true
 	case "stuck":
 		r.violate("C05", "stuck", o.verdict.detail)
 		fmt.Fprintf(w, "C\t%s\ttrace %s %s\tstuck\n", j.Stream, j.Params, o.events)
@@ -1016,6 +1034,8 @@ func childStress(seed uint64, n int, maxNodes int, fixed string) int {
 				}
 			}
 		})
+		fmt.Fprintf(w, "G\t%s\n", g.params())
+		w.Flush()
 		done := make(chan error, 1)
 		go func() { done <- runner.Run(r, strconv.Itoa(g.root)) }()
 		j := job{Stream: "runner.stress", Params: g.params()}
@@ -1038,8 +1058,8 @@ func childStress(seed uint64, n int, maxNodes int, fixed string) int {
 			}
 			r.judgeFinal(result)
 			fmt.Fprintf(w, "C\trunner.stress.%d\tfinal %s %s\tok\n", limit, j.Params, strings.ReplaceAll(r.summary(result), " ", ","))
-		case <-time.After(20 * time.Second):
-			r.violate("C05", "hang", fmt.Sprintf("free-running build did not finish within 20s on %d CPUs", limit))
+		case <-time.After(8 * time.Second):
+			r.violate("C05", "hang", fmt.Sprintf("free-running build did not finish within 8s on %d CPUs (deadlock)", limit))
 			if limit == 1 {
 				r.violate("C09", "hang-limit-one", "build did not complete with a parallelism limit of one")
 			}
@@ -1093,6 +1113,8 @@ func fixedShapes() []*graph {
 		mk([][]int{{1, 2, 3}, {}, {}, {}}, nil, []int{2}),            // fan-out, one failing
 		mk([][]int{{1, 2}, {3, 4}, {3, 4}, {5}, {5}, {}}, nil, nil),  // shared subgraph
 		mk([][]int{{1, 2}, {2}, {3}, {2}}, nil, nil),                 // bystanders of a cycle
+		mk([][]int{{1, 2}, {1}, {1}}, nil, nil),                      // a late dependent of a self-dependent target
+		mk([][]int{{1, 3}, {2}, {1}, {1}}, nil, nil),                 // a late dependent of a member of a 2-cycle
 	}
 }
 
@@ -1260,7 +1282,8 @@ func (p *parent) runChild(batch []job, deadline time.Time, mu *sync.Mutex) int {
 		in.WriteByte('\n')
 	}
 	cmd.Stdin = strings.NewReader(in.String())
-	cmd.Stderr = os.Stderr
+	var errb tailBuffer
+	cmd.Stderr = &errb
 	stdout, _ := cmd.StdoutPipe()
 	if err := cmd.Start(); err != nil {
 		fmt.Fprintln(os.Stderr, "cannot start child:", err)
@@ -1283,8 +1306,18 @@ func (p *parent) runChild(batch []job, deadline time.Time, mu *sync.Mutex) int {
 		p.passLine(line)
 		mu.Unlock()
 	}
-	cmd.Wait()
-	timer.Stop()
+	werr := cmd.Wait()
+	killed := !timer.Stop()
+	if ee, ok := werr.(*exec.ExitError); ok && !killed && ee.ExitCode() != 3 && done < len(batch) {
+		// the child died inside a job (a Go fatal error such as a stack overflow cannot be recovered from)
+		j := batch[done]
+		b, _ := json.Marshal(violation{Property: "C05", Kind: "crash",
+			Detail: fmt.Sprintf("the process died while running this build under the controlled scheduler: %v: %s", werr, errb.String()),
+			Input:  map[string]any{"params": j.Params, "mode": "job", "strat": j.Strat, "seed": strconv.FormatUint(j.Seed, 10), "guide": j.Guide}})
+		mu.Lock()
+		p.passLine("V\t" + string(b))
+		mu.Unlock()
+	}
 	mu.Lock()
 	p.stats["children"]++
 	if done == 0 {
@@ -1312,7 +1345,8 @@ func (p *parent) runStress(seed uint64, cpus string, n, maxNodes int, limit time
 		p.stats["taskset_missing"] = 1
 		cmd = exec.Command(p.exe, args...)
 	}
-	cmd.Stderr = os.Stderr
+	var errb tailBuffer
+	cmd.Stderr = &errb
 	stdout, _ := cmd.StdoutPipe()
 	if err := cmd.Start(); err != nil {
 		p.stats["harness_errors"]++
@@ -1321,15 +1355,77 @@ func (p *parent) runStress(seed uint64, cpus string, n, maxNodes int, limit time
 	timer := time.AfterFunc(limit, func() { cmd.Process.Kill() })
 	sc := bufio.NewScanner(stdout)
 	sc.Buffer(make([]byte, 1<<20), 1<<26)
+	last, sawV := "", false
 	for sc.Scan() {
-		p.passLine(sc.Text())
+		line := sc.Text()
+		if strings.HasPrefix(line, "G\t") {
+			last = line[2:]
+			continue
+		}
+		if strings.HasPrefix(line, "V\t") {
+			sawV = true
+		}
+		p.passLine(line)
 	}
 	err := cmd.Wait()
+	ncpu := 1
+	if i := strings.IndexByte(cpus, '-'); i >= 0 {
+		hi, _ := strconv.Atoi(cpus[i+1:])
+		ncpu = hi + 1
+	}
+	emitV := func(kind, detail string) {
+		b, _ := json.Marshal(violation{Property: "C05", Kind: kind, Detail: detail,
+			Input: map[string]any{"params": last, "mode": "stress", "cpus": ncpu}})
+		p.passLine("V\t" + string(b))
+	}
 	if !timer.Stop() {
 		p.stats["stress_children_killed_by_time_budget"]++
+		if last != "" && !sawV {
+			emitV("hang", fmt.Sprintf("the free-running child (cpus %s) was still inside this build when its time budget of %v ran out", cpus, limit))
+		}
 	} else if err != nil {
 		p.stats["stress_children_failed"]++
+		if ee, ok := err.(*exec.ExitError); ok && ee.ExitCode() != 3 && last != "" {
+			emitV("crash", fmt.Sprintf("the free-running child (cpus %s) died during this build: %v: %s", cpus, err, errb.String()))
+		}
 	}
+	os.Stderr.Write([]byte(errb.head()))
+}
+
+// tailBuffer keeps the first 2 KiB and the last 2 KiB written to it (a Go fatal error prints a very long stack)
+type tailBuffer struct {
+	mu   sync.Mutex
+	h, t []byte
+}
+
+func (b *tailBuffer) Write(p []byte) (int, error) {
+	b.mu.Lock()
+	defer b.mu.Unlock()
+	if len(b.h) < 2048 {
+		k := 2048 - len(b.h)
+		if k > len(p) {
+			k = len(p)
+		}
+		b.h = append(b.h, p[:k]...)
+	}
+	b.t = append(b.t, p...)
+	if len(b.t) > 2048 {
+		b.t = b.t[len(b.t)-2048:]
+	}
+	return len(p), nil
+}
+func (b *tailBuffer) head() string { b.mu.Lock(); defer b.mu.Unlock(); return string(b.h) }
+func (b *tailBuffer) String() string {
+	b.mu.Lock()
+	defer b.mu.Unlock()
+	h := string(b.h)
+	if i := strings.Index(h, "\n\n"); i > 0 {
+		h = h[:i]
+	}
+	if len(h) > 400 {
+		h = h[:400]
+	}
+	return strings.ReplaceAll(h, "\n", " | ")
 }
 
 func (p *parent) runProject(seed uint64, n, maxNodes int, limit time.Duration, fixed string) {
@@ -1394,12 +1490,18 @@ func main() {
 			Mode     string `json:"mode"`
 			Schedule string `json:"schedule"`
 			Cpus     int    `json:"cpus"`
+			Strat    string `json:"strat"`
+			Seed     string `json:"seed"`
+			Guide    string `json:"guide"`
 		}
 		if err := json.Unmarshal([]byte(*replay), &in); err != nil {
 			fmt.Fprintln(os.Stderr, err)
 			os.Exit(2)
 		}
-		if in.Mode == "project" {
+		if in.Mode == "job" {
+			sd, _ := strconv.ParseUint(in.Seed, 10, 64)
+			p.runJobs([]job{{Stream: "runner.replay", Params: in.Params, Strat: in.Strat, Seed: sd, Guide: in.Guide}}, 1, time.Minute, 1)
+		} else if in.Mode == "project" {
 			p.runProject(*seed, 200, 1, 2*time.Minute, in.Params)
 		} else if in.Mode == "schedule" {
 			p.runJobs([]job{{Stream: "runner.replay", Params: in.Params, Strat: "guide", Guide: in.Schedule}}, 1, time.Minute, 1)
@@ -1544,9 +1646,9 @@ func main() {
 
 	// 5. free-running stress with the real runtime.NumCPU() limit
 	sn, smax := 4000, 14
-	sl := 12 * time.Second
+	sl := 45 * time.Second
 	if !quick {
-		sn, smax, sl = 40000, 40, 100*time.Second
+		sn, smax, sl = 40000, 40, 150*time.Second
 	}
 	for _, cpus := range []string{"0", "0-1", "0-2", "0-15"} {
 		p.runStress(rg.next(), cpus, sn, smax, sl, "")
